@@ -87,7 +87,8 @@ def build_trace(tid, E, sessions):
                 else:
                     x.append([0, I(lines[i])])
                 i += 1
-        out.append({'x': x, 'q': bool(s['q']), 'tie': tie, 'qn': -1 if s.get('qn') is None else int(s['qn'])})
+        out.append({'x': x, 'q': bool(s['q']), 'tie': tie, 'qn': -1 if s.get('qn') is None else int(s['qn']),
+                    'noise': bool(s.get('noise'))})
         npos = NE + 1 if replay else pos
     return {'tid': tid, 'E': Et, 'sess': out}
 
@@ -173,7 +174,8 @@ def gated_histories(path, E, scripts, rng, n_random, work, PTS=None, itraces=Non
                 if os.path.exists(f):
                     os.remove(f)
             pcfg = ptq.load_pcfg(path, save_file=fn)
-            run = gated.GatedRun(pcfg, session.new_save_config(), fn, script)
+            age = rng.choice([0, 59, 3600, 86400 + 61, 2 * 86400 + 5, 9 * 86400 + 3700])
+            run = gated.GatedRun(pcfg, session.new_save_config(), fn, script, age=age)
             r = run.run(chooser)
             if itraces is not None and r['finished'] and not r['error']:
                 N = len(PTS)
@@ -185,8 +187,9 @@ def gated_histories(path, E, scripts, rng, n_random, work, PTS=None, itraces=Non
                     cnt += 1
                 if who == 'K' and gate == 'set_exit':
                     qn = cnt
-            sess = [{'lines': r['lines'], 'q': r['q_consumed'], 'saved': None, 'qn': qn}]
-            m = {'script': script, 'schedule': ''.join(r['schedule']), 'label': label, 'error': r['error']}
+            sess = [{'lines': r['lines'], 'q': r['q_consumed'], 'saved': None, 'qn': qn, 'noise': r['stdout_noise'] != ''}]
+            m = {'script': script, 'schedule': ''.join(r['schedule']), 'label': label, 'error': r['error'], 'session_age_s': age,
+                 'stdout_noise': r['stdout_noise'][:80]}
             if len(r['lines']) < len(E) or r['error']:
                 sess.append(resume_to_end(path, fn))
             res.append((sess, m))
@@ -236,7 +239,8 @@ def gated_resume_histories(path, E, rng, n_random, work):
             cfg, info = session.load_save(fn)
             sp = saved_prob(fn)
             pcfg2 = ptq.load_pcfg(path, save_file=fn)
-            run = gated.GatedRun(pcfg2, cfg, fn, script, load=True)
+            age = rng.choice([0, 59, 3600, 86400 + 61, 2 * 86400 + 5, 9 * 86400 + 3700])
+            run = gated.GatedRun(pcfg2, cfg, fn, script, load=True, age=age)
             r = run.run(chooser)
             qn = None
             cnt = 0
@@ -245,10 +249,10 @@ def gated_resume_histories(path, E, rng, n_random, work):
                     cnt += 1
                 if who == 'K' and gate == 'set_exit':
                     qn = cnt
-            sess.append({'lines': r['lines'], 'q': r['q_consumed'], 'saved': sp, 'qn': qn})
+            sess.append({'lines': r['lines'], 'q': r['q_consumed'], 'saved': sp, 'qn': qn, 'noise': r['stdout_noise'] != ''})
             if sum(len(x['lines']) for x in sess) < len(E) or r['error']:
                 sess.append(resume_to_end(path, fn))
-            res.append((sess, {'script': script, 'schedule': ''.join(r['schedule']), 'label': 'resumed session, ' + label,
+            res.append((sess, {'script': script, 'schedule': ''.join(r['schedule']), 'label': 'resumed session, ' + label, 'session_age_s': age, 'stdout_noise': r['stdout_noise'][:80],
                                'first_quit_after': g1, 'error': r['error']}))
             return r
         base = one(gated.main_first, 'main first')
